@@ -1,7 +1,7 @@
 (* C03 at source level: SKey::as_equal_slice as TRANSLATED FROM src/key.rs on this run.
    Only statements; every proof is `exact` of a lemma from proofs/steps/. *)
 From Coq Require Import ZArith.
-From WS Require Import lib.Bytes lib.Res lib.StepLoop Consts Steps spec.Srp6 model.Bigint model.Key model.Srp primes.NFacts proofs.Srp proofs.steps.Key proofs.steps.Formulas proofs.steps.Interleave.
+From WS Require Import lib.Bytes lib.Res lib.StepLoop Consts Steps spec.Srp6 model.Bigint model.Key model.Srp primes.NFacts proofs.Srp proofs.steps.Key proofs.steps.Formulas proofs.steps.Interleave proofs.steps.Digests.
 Local Open Scope Z_scope.
 
 (* the strip that precedes the SHA-1 interleave, for every 32-byte secret *)
@@ -55,7 +55,25 @@ Theorem C03_source_session_key : forall A B v b, length A = 32%nat ->
   = Some (sp_K (sp_S_server Nz (le_to_Z A) (le_to_Z v) (sp_u A B) (le_to_Z b))).
 Proof. exact session_key_source_spec. Qed.
 
+(* the digests, as translated: x = H(salt | H(U ":" P)); M1 = H((H(N) xor H(g)) | H(U) | salt | A | B | K) with the
+   precalculated xor constant or, on the client, the one computed from the announced group; M2 = H(A | M1 | K);
+   the reconnect proof = H(U | client data | server data | K); Integer::to_padded_32_byte_array_le is the
+   model's padding on either back end *)
+Theorem C03_source_digests : forall U P salt A B K M1 cd sd n g be z,
+  tr_srp_calculate_x U P salt = Some (lib.Sha1.sha1 (salt ++ lib.Sha1.sha1 (U ++ [58%N] ++ P))) /\
+  tr_srp_calculate_client_proof U K A B salt = Some (lib.Sha1.sha1 (xor_hash ++ lib.Sha1.sha1 U ++ salt ++ A ++ B ++ K)) /\
+  tr_srp_calculate_client_proof_custom U K A B salt n g
+    = Some (lib.Sha1.sha1 (xor_bytes (lib.Sha1.sha1 n) (lib.Sha1.sha1 [g]) ++ lib.Sha1.sha1 U ++ salt ++ A ++ B ++ K)) /\
+  tr_srp_calculate_server_proof A M1 K = Some (lib.Sha1.sha1 (A ++ M1 ++ K)) /\
+  tr_srp_calculate_reconnect_proof U cd sd K = Some (lib.Sha1.sha1 (U ++ cd ++ sd ++ K)) /\
+  tr_bigint_to_padded_32 be z = match to_padded_32_byte_array_le be z with Ok a => Some a | _ => None end.
+Proof.
+  intros. rewrite proofs.steps.Digests.calculate_client_proof_custom_translated.
+  repeat split. apply bigint_to_padded_32_translated.
+Qed.
+
 Print Assumptions C03_source_strip.
+Print Assumptions C03_source_digests.
 Print Assumptions C03_source_interleave.
 Print Assumptions C03_source_u.
 Print Assumptions C03_source_session_key.
